@@ -278,7 +278,7 @@ func xmlAddKeyElements(s Entry, parent *etree.Element) {
 		if existingElem == nil {
 			// and finally we create the patheleme key attributes
 			parent.CreateElement(schemaKeys[i]).SetText(treeElem.PathName())
-			treeElem = treeElem.GetParent()
 		}
+		treeElem = treeElem.GetParent()
 	}
 }
